@@ -1,7 +1,7 @@
 #!/bin/bash
 # bin/build.sh <variant> — build one explorer binary from the repository's current working tree
 # (/repo, or $VERIF_REPO for scratch worktrees used when testing mutants).
-# variants: plain, plus bin/build-<variant>.sh for overlay builds (sched, maprt, cut, blk6 ...).
+# variants: plain-cXX (no overlay, main = harness/cmd/cXX), plus bin/build-<variant>.sh for overlay builds (sched, maprt, cut, blk6 ...).
 # Prints nothing on success; the binary is $WORKDIR/bin/vcheck-<variant>.
 set -euo pipefail
 VERIF="$(cd "$(dirname "$0")/.." && pwd)"
@@ -17,8 +17,9 @@ export MODFLAG="-modfile=$WORKDIR/go.mod"
 cd "$VERIF/harness"
 out="$WORKDIR/bin/vcheck-$variant"
 case "$variant" in
-  plain)
-    go build $MODFLAG -o "$out" ./cmd/vcheck ;;
+  plain-*)
+    # one main per property (harness/cmd/cXX) so that a package under development cannot break the others
+    go build $MODFLAG -o "$out" "./cmd/${variant#plain-}" ;;
   *)
     if [ -x "$VERIF/bin/build-$variant.sh" ]; then
       "$VERIF/bin/build-$variant.sh" "$out"
